@@ -329,9 +329,10 @@ func yamlName(tag reflect.StructTag, def string) string {
 func init() { register("C13", checkC13) }
 
 func checkC13(c *Ctx, r *Report) {
-	r.Rules = []string{"S-get shape of Config.Get (two merges, override option only, lookup by the requested format)", "D1 content filter table", "V1 override keys validated against the packager registry", "A1 merge-aliasing hazard walk", "documented overridable keys are overridable fields", "S-get the override block is consumed by the merge only"}
+	r.Rules = []string{"S-get shape of Config.Get (two merges, override option only, lookup by the requested format)", "D1 content filter table", "V1 override keys validated against the packager registry", "A1 merge-aliasing hazard walk", "documented overridable keys are overridable fields", "S-get the override block is consumed by the merge only", "A-block-as-written override blocks are written only by the environment expansion"}
 	r.Explanation = "Shape and table rules over go/ssa and go/types. (S-get) Config.Get performs exactly two mergo.Merge calls: the base Info (by value) into a freshly allocated Info, and the override block obtained by a map lookup whose key is the requested format — nothing else — into that Info's overridable part; both with exactly the option WithOverride (so lists are replaced wholesale and only non-empty values override); the path without an override block returns the base copy. (D1) the content filter in Get is evaluated for every (entry tag, requested format) cell and keeps an entry iff its tag is empty or the requested format. (V1) Config.Validate passes every key of the overrides table to the packager registry lookup and returns its error; the registry lookup fails for an unknown format. (A1) the type tree of Overridables is walked for pointer-kind fields, through which mergo would write into the base configuration, unless Get re-points them to fresh copies before the override merge. The documented '(overridable)' keys are fields of Overridables. mergo's reflective merge itself is trusted."
 	r.Explanation += " The override block is consumed by the merge alone: no field of the looked-up block is read directly in Config.Get or the helpers it hands the fresh Info to."
+	r.Explanation += " (A-block-as-written) every store whose address is rooted at an element of Config.Overrides (a map lookup, a range value, or a parameter bound to one at a call site) lies in the environment-expansion family."
 	r.Assumptions = []string{
 		"mergo v1.0.1 with WithOverride replaces a destination value by a non-empty source value, slices wholesale, nested structs field by field, and re-makes maps",
 	}
@@ -778,6 +779,71 @@ func checkC13(c *Ctx, r *Report) {
 	// what the block sets is what the packager uses: with a format-specific
 	// architecture configured the stored architecture is that value (rule
 	// D3-override of C02)
+	checkOverrideBlocksUntouched(c, r)
 	r.Floor("used-D3-override", importRules(c, r, checkC02, "used-", []string{"D3-override"}, nil), 3)
 	r.Exhaustive = true
+}
+
+// checkOverrideBlocksUntouched (A-block-as-written): "exactly the fields the
+// block sets": an override block holds what the configuration file wrote into
+// it, so that merging it changes those fields and no others. Apart from the
+// environment expansion (which rewrites a field from itself, C16) no module
+// code stores into a block of Config.Overrides - a default filled into a
+// block would be merged over the base value as if the file had set it.
+func checkOverrideBlocksUntouched(c *Ctx, r *Report) {
+	pa := newProv(c)
+	exp := map[*ssa.Function]bool{}
+	for _, f := range expansionFamily(c) {
+		exp[f] = true
+	}
+	n := 0
+	var bad []string
+	var at ssa.Instruction
+	for _, fn := range c.ModFuncs {
+		if strings.HasPrefix(c.funcPkgPath(fn), modPath+"/internal/cmd") {
+			continue
+		}
+		forEachInstr(fn, func(in ssa.Instruction) {
+			st, ok := in.(*ssa.Store)
+			if !ok {
+				return
+			}
+			pth, root := addrPath(st.Addr)
+			if root == nil || !isPtrToNamed(root.Type(), modPath, "Overridables") {
+				return
+			}
+			into := false
+			switch x := root.(type) {
+			case *ssa.Parameter:
+				idx := -1
+				for i, q := range fn.Params {
+					if q == x {
+						idx = i
+					}
+				}
+				for _, cs := range pa.callSites(fn) {
+					if idx >= 0 && idx < len(cs.Common().Args) && isOverrideElem(cs.Common().Args[idx]) {
+						into = true
+					}
+				}
+			default:
+				into = isOverrideElem(root)
+			}
+			if !into {
+				return
+			}
+			n++
+			if !exp[fn] {
+				bad = append(bad, fmt.Sprintf("%s in %s", pth, c.funcKey(fn)))
+				at = st
+			}
+		})
+	}
+	pos := "-"
+	if at != nil {
+		pos = c.instrPos(at)
+	}
+	r.Check(len(bad) == 0, "A-block-as-written", "override blocks are written only by the environment expansion", pos,
+		fmt.Sprintf("%d store(s) into blocks of Config.Overrides; outside the expansion: %v - a value filled into a block is merged over the base setting although the file's block never mentioned the field", n, uniq(bad)))
+	r.Floor("A-block-as-written", n, 5)
 }
